@@ -311,13 +311,13 @@ Proof.
   apply andb_true_iff in G as [G1 G2]. apply result_eqb_eq in G1. rewrite G1, (IH l' G2). reflexivity.
 Qed.
 
-(** C05-F6 showed (before 4a30678) on exactly the histories on which keying the cache by the rendered url alone
-    changes an answer *)
+(** C05-F6 shows (with 4a30678 reverted) on exactly the histories on which keying the cache by the rendered url
+    alone changes an answer.  NB: outside this guard the pinned statement below is the repaired one by definition. *)
 Definition guard_F6 (f1 f2 : bool) (h : list kstep) : bool :=
   negb (list_eqb result_eqb (run_history f1 f2 true false h) (run_history f1 f2 true true h)).
 
-(** the code as it was before 4a30678: for histories without header-only templates, and for all on which C05-F6
-    does not show *)
+(** the code as it is with 4a30678 reverted (later repairs kept): for histories without header-only templates
+    (the content of this theorem), and for all on which C05-F6 does not show (true by the definition of the guard) *)
 Theorem history_stateless f1 f2 h pre s post r :
   url_keyed h \/ guard_F6 f1 f2 h = false ->
   h = pre ++ s :: post ->
@@ -330,12 +330,13 @@ Proof.
     exact (history_stateless_fixed f1 f2 h pre s post r E Hr).
 Qed.
 
-(** C05-F4 showed (before d20d7cd) on exactly the histories on which the unvalidated reuse of a cached key
-    changes an answer *)
+(** C05-F4 shows (with d20d7cd and 4a30678 reverted) on exactly the histories on which the unvalidated reuse of a
+    cached key changes an answer.  NB: outside this guard the pinned statement below reduces to the one above. *)
 Definition guard_F4 (f1 f2 : bool) (h : list kstep) : bool :=
   negb (list_eqb result_eqb (run_history f1 f2 false false h) (run_history f1 f2 true false h)).
 
-(** the code as it was before d20d7cd *)
+(** the code as it is with d20d7cd and 4a30678 reverted (later repairs such as the ttl in the cache key and
+    d55629a kept; not a state /repo was ever in): the content is the [uniform_validation] branch *)
 Theorem history_stateless_either f1 f2 h pre s post r :
   (exists v, uniform_validation v h) \/ guard_F4 f1 f2 h = false ->
   url_keyed h ->
@@ -403,17 +404,6 @@ Proof.
     destruct (stateless true true s env); simpl in Hall; congruence.
 Qed.
 
-Theorem history_spec h pre s post r :
-  url_keyed h \/ guard_F6 true true h = false ->
-  h = pre ++ s :: post ->
-  nth_error (run_history true true true false h) (length pre) = Some r ->
-  sane_clock (s_cf s) (s_now s) -> open_guards (s_cf s) (s_cred s) = false ->
-  meets_spec pre s r.
-Proof.
-  intros G E Hr Hs G3. apply judged_meets_spec; try assumption.
-  exact (history_stateless true true h pre s post r G E Hr).
-Qed.
-
 Theorem history_spec_fixed h pre s post r :
   h = pre ++ s :: post ->
   nth_error (run_history true true true true h) (length pre) = Some r ->
@@ -422,17 +412,6 @@ Theorem history_spec_fixed h pre s post r :
 Proof.
   intros E Hr Hs G3. apply judged_meets_spec; try assumption.
   exact (history_stateless_fixed true true h pre s post r E Hr).
-Qed.
-
-Theorem history_fixed_both h pre s post r :
-  h = pre ++ s :: post ->
-  nth_error (run_history true true true true h) (length pre) = Some r ->
-  (judged_statelessly true true pre s r) /\
-  (sane_clock (s_cf s) (s_now s) -> open_guards (s_cf s) (s_cred s) = false -> meets_spec pre s r).
-Proof.
-  intros E Hr. split.
-  - exact (history_stateless_fixed true true h pre s post r E Hr).
-  - intros Hs G. exact (history_spec_fixed h pre s post r E Hr Hs G).
 Qed.
 
 (* ------------------------------------------------------------------ examples *)
@@ -488,7 +467,7 @@ Definition exc_who (strict : bool) : kstep :=
      s_cache_on := true; s_ttl := -1; s_templated := true; s_tpl_url := true; s_env := exc_bad_env; s_now := secs 1790000000;
      s_cred := exc_tok "tenant-a" "k1" 3 |}.
 
-Theorem F4_refuted :
+Theorem F4_pinned_refuted :
   let h := [exc_who true; exc_who false; exc_who true] in
   guard_F4 true true h = true /\
   run_history true true false false h = [Failed EKey; Accepted "alice"; Accepted "alice"] /\
@@ -500,7 +479,7 @@ Proof.
   simpl in Hin. destruct Hin as [<-|[<-|[<-|[]]]]; vm_compute in Hspec; discriminate.
 Qed.
 
-(** C05-F6 as it was before 4a30678 (pinned): one key-set endpoint for two tenants, the tenant travels in a header templated with the token's
+(** C05-F6, with 4a30678 reverted (pinned): one key-set endpoint for two tenants, the tenant travels in a header templated with the token's
     issuer ({{ .TokenIssuer }}), the url is the same; both tenants use the kid k1 for different keys.  After
     tenant-a's key has been cached, a token that names tenant-b but is signed with tenant-a's key is accepted
     (the cache key has no rendered header values), although tenant-b's key set does not verify it; and
@@ -509,7 +488,7 @@ Definition exc_hdr (cr : cred) : kstep :=
   {| s_cf := exc_cf; s_cache_on := true; s_ttl := -1; s_templated := true; s_tpl_url := false;
      s_env := exc_env 3 4; s_now := secs 1790000000; s_cred := cr |}.
 
-Theorem F6_refuted :
+Theorem F6_pinned_refuted :
   let h := [exc_hdr (exc_tok "tenant-a" "k1" 3); exc_hdr (exc_tok "tenant-b" "k1" 3); exc_hdr (exc_tok "tenant-b" "k1" 4)] in
   guard_F6 true true h = true /\
   run_history true true true false h = [Accepted "alice"; Accepted "alice"; Failed ESignature] /\
